@@ -34,8 +34,9 @@ def prepare(rp, ce, params):
         def judge(out):
             w1 = nn <= 1000 and ne <= 1000
             w2 = npred <= 100 and (npred == 0 or w1)
-            bad = (out.get("check") == "true") != w1 or (out.get("contract") == "ok") != w2
-            return bad, f"limits say check={w1} contract={w2}; real: {out}"
+            bad = ((out.get("check") == "true") != w1 or (out.get("contract") == "ok") != w2 or (out.get("encode") == "true") != w1
+                   or out.get("encode_size_ok") == "false")
+            return bad, f"limits say check={w1} encode={w1} contract={w2}; real: {out}"
         return fields, judge
     # set_mutations_unique
     ns = 1 + trace_val(ce, "solutions")
